@@ -303,9 +303,13 @@ func c25Exec(ops []string) []string {
 				outs = append(outs, "bad-op")
 				continue
 			}
-			var names []string
+			var names []string // "u"+name or "q"+name
 			for _, h := range splitNE(f[3], ",") {
-				names = append(names, string(unhex(h)))
+				if strings.HasPrefix(h, "q") {
+					names = append(names, "q"+string(unhex(h[1:])))
+				} else {
+					names = append(names, "u"+string(unhex(h)))
+				}
 			}
 			res, o := c25E2EStream(string(fl), seq, names)
 			other = o
@@ -450,6 +454,15 @@ func c25Str(v any) string {
 	return ""
 }
 
+// c25WrapFilter adds the harness's end-marker filter on the side that keeps the client's own
+// leading / trailing characters at the edge of the string the agent receives.
+func c25WrapFilter(f string) string {
+	if strings.HasPrefix(f, " ") {
+		return f + ",user:fin"
+	}
+	return "user:fin," + f
+}
+
 func c25E2EStream(filter string, seq uint64, names []string) (string, int) {
 	env, err := c24GetEnv()
 	if err != nil {
@@ -471,9 +484,13 @@ func c25E2EStream(filter string, seq uint64, names []string) (string, int) {
 		c25WaitFor(func() bool { return env.agent.VerifEventHandlerCount() <= base })
 	}()
 	c.send("M"+mKV("Command", mS("handshake"))+","+mKV("Seq", "i1"), "M"+mKV("Version", "i1"),
-		"M"+mKV("Command", mS("stream"))+","+mKV("Seq", "i"+strconv.FormatUint(seq, 10)), "M"+mKV("Type", mS(filter+",user:fin")))
+		"M"+mKV("Command", mS("stream"))+","+mKV("Seq", "i"+strconv.FormatUint(seq, 10)), "M"+mKV("Type", mS(c25WrapFilter(filter))))
 	for i := 0; i < 2; i++ {
-		if _, es, err := c.header(); err != nil || es != "" {
+		_, es, err := c.header()
+		if i == 1 && err == nil && es == "Invalid event filter" {
+			return "rejected", 0
+		}
+		if err != nil || es != "" {
 			return fmt.Sprintf("ERR setup reply %d: %v %q", i, err, es), -1
 		}
 	}
@@ -527,7 +544,13 @@ func c25E2EStream(filter string, seq uint64, names []string) (string, int) {
 		}
 	}
 	for i, n := range names {
-		if err := env.agent.UserEvent(n, []byte(strconv.Itoa(i)), false); err != nil {
+		if n[0] == 'q' {
+			if _, err := env.agent.Query(n[1:], []byte(strconv.Itoa(i)), &serf.QueryParam{Timeout: 5 * time.Millisecond}); err != nil {
+				return "ERR query " + err.Error(), -1
+			}
+			continue
+		}
+		if err := env.agent.UserEvent(n[1:], []byte(strconv.Itoa(i)), false); err != nil {
 			return "ERR fire " + err.Error(), -1
 		}
 	}
@@ -539,6 +562,10 @@ func c25E2EStream(filter string, seq uint64, names []string) (string, int) {
 		case r := <-recs:
 			ev := c25Str(r.m["Event"])
 			nm, pl := c25Str(r.m["Name"]), c25Str(r.m["Payload"])
+			if ev == "query" {
+				out = append(out, fmt.Sprintf("%d:q:%s:%s", r.seq, hexs(nm), pl))
+				continue
+			}
 			if ev != "user" {
 				other++
 				continue
@@ -732,14 +759,29 @@ func c25Gen(rng *rand.Rand, tier string) []Case {
 		ops = append(ops, "qend")
 		out = append(out, Case{ID: fmt.Sprintf("qs%d", i), Ops: ops, Nontrivial: k > 1, Tags: []string{"query-stream"}})
 	}
-	// end to end: stream command with a filter, user events fired through the agent
+	// end to end: stream command with a filter, user events and queries fired through the agent.
+	// Names are case-sensitive and only differ by case among the traffic; filters may carry
+	// leading / trailing spaces (the real code then rejects or mis-names them, never trims).
+	e2eNames := []string{"a", "b", "A", "Deploy-EU", "deploy-eu", "DEPLOY-EU", "zz", "Uptime", "uptime"}
+	e2eFilters := []string{"user", "user:a", "user:a,user:b", "*", "user:zz", "query,user:b", "member-join,user:Deploy-EU",
+		"user:Deploy-EU", "user:deploy-eu", "user:DEPLOY-EU,user:A", "query:Uptime", "query:uptime,user:A", "query:Uptime,user:Deploy-EU",
+		" user:a", "user:a ", " user", "user:Deploy-EU ", "User:a", "USER", "query:Uptime ", "Query:uptime"}
 	for i := 0; i < nE2E; i++ {
-		fl := []string{"user", "user:a", "user:a,user:b", "*", "user:zz", "query,user:b", "member-join,user:deploy"}[rng.Intn(7)]
-		k := 1 + rng.Intn(12)
+		fl := e2eFilters[rng.Intn(len(e2eFilters))]
+		if i < len(e2eFilters) {
+			fl = e2eFilters[i]
+		}
+		k := 2 + rng.Intn(12)
 		var ns []string
 		for j := 0; j < k; j++ {
-			ns = append(ns, hexs(names[rng.Intn(len(names))]))
+			n := hexs(e2eNames[rng.Intn(len(e2eNames))])
+			if rng.Intn(4) == 0 {
+				n = "q" + n
+			}
+			ns = append(ns, n)
 		}
+		// always some traffic that differs from the filter's names only by case
+		ns = append(ns, hexs("Deploy-EU"), hexs("deploy-eu"), "q"+hexs("Uptime"), "q"+hexs("uptime"), hexs("a"), hexs("A"))
 		ops := []string{fmt.Sprintf("e2e %s %d %s", hexs(fl), 2+rng.Intn(100000), strings.Join(ns, ",")), "e2eother"}
 		out = append(out, Case{ID: fmt.Sprintf("e2e%d", i), Ops: ops, Nontrivial: true, Tags: []string{"e2e-stream"}})
 	}
